@@ -175,7 +175,7 @@ DIRECTIVES = [
     ('if', '#if E\n', 'eval[E]'), ('if', '  #if E // c\n', 'eval[E]'), ('ifdef', '#ifdef M\n', 'defined[M]'), ('ifdef', '#ifdef  M \n', 'defined[M]'),
     ('ifndef', '#ifndef M\n', '!defined[M]'), ('elif', '#elif E\n', 'eval[E]'), ('elif', '\t#elif E\n', 'eval[E]'), ('else', '#else\n', None), ('else', '#else // x\n', None),
     ('endif', '#endif\n', None), ('endif', '  #endif\n', None), ('text', 'char marker;\n', None), ('text', '   x = 1; // c\n', None),
-    ('error', '#error boom\n', None), ('define', '#define Q 1\n', None), ('undef', '#undef M\n', 'defined[M]'), ('include', '#include "f.h"\n', None),
+    ('error', '#error boom\n', None), ('error', '#pragma once\n', None), ('error', '  #warning deprecated\n', None), ('define', '#define Q 1\n', None), ('undef', '#undef M\n', 'defined[M]'), ('include', '#include "f.h"\n', None),
 ]
 
 
@@ -380,7 +380,7 @@ def ref_cpp(src, defs):
                     if name == '#define':
                         a = arg.split(None, 1); macros[a[0].split('(')[0]] = a[1] if len(a) > 1 else ''
                     elif name == '#undef': macros.pop(arg, None)
-                    elif name in ('#error', '#include'): return ('err', set())
+                    elif name in ('#error', '#include') or name not in ('#if', '#ifdef', '#ifndef', '#elif', '#else', '#endif', '#define', '#undef'): return ('err', set())     # (unknown directives are errors where they are live)
             elif active():
                 for m in re.finditer(r'\bmk\w*', s): marks.add(m.group(0))
     except KeyError:
@@ -395,7 +395,7 @@ def nestings(tier):
     progs = []
     n = 0
     for c1, c2, c3 in itertools.product(conds, conds[:6], conds[:4]):
-        for shape in range(6):
+        for shape in range(7):
             n += 1
             if tier == 'quick' and n % 7: continue
             o1 = openers(c1)[n % len(openers(c1))]
@@ -404,6 +404,7 @@ def nestings(tier):
             elif shape == 2: src = '%s\n#define QX 1\nchar mk1;\n#else\n#define QY 1\nchar mk2;\n#endif\n#ifdef QX\nchar mk3;\n#endif\n#ifdef QY\nchar mk4;\n#endif\n' % o1
             elif shape == 3: src = '%s\nchar mk1;\n#elif %s\nchar mk2;\n#elif %s\nchar mk3;\n#else\nchar mk4;\n#endif\n' % (o1, c2, c3)
             elif shape == 4: src = '%s\nchar mk1;\n#else\n#error dead or alive\n#endif\n#if %s\n#undef A\n#endif\n#ifdef A\nchar mk2;\n#endif\n' % (o1, c2)
+            elif shape == 6: src = '%s\nchar mk1;\n#else\n#pragma once\n#warning dead\nchar mk2;\n#endif\n#if %s\n#if %s\n#frobnicate\n#endif\nchar mk3;\n#endif\n' % (o1, c2, c3) if c2 != c3 else '%s\nchar mk1;\n#else\n#pragma once\nchar mk2;\n#endif\n' % o1
             else: src = '#if %s\n%s\nchar mk1;\n#elif %s\nchar mk2;\n#else\nchar mk3;\n#endif\n#else\n#ifdef A\nchar mk4;\n#else\nchar mk5;\n#endif\n#endif\n' % (c3, o1, c2)
             if shape == 2:
                 # function-like and empty macros count as defined; a macro defined in a dead branch does not
